@@ -12,7 +12,9 @@
    invalidation); retain[o][t] (what each owner currently holds in the kernel table on behalf of endpoints).
 
    Events (one call of the real API each):
-     Get(k, o, dial)   GetOrCreate for key k by control-plane generation o; dial in {"ok","fail"} is what the dial would do
+     Get(k, o, dial)   GetOrCreate for key k by control-plane generation o; dial is what the dial attempts would do:
+                       "ok" | "fail" (an ordinary error) | "unreach-ok" / "unreach-fail" (the first attempt finds the network
+                       unreachable, a node is selected again and the second attempt succeeds / fails with an ordinary error)
      Get2(k)           two concurrent GetOrCreate for k with a slow dial
      Write(e) / WriteErr(e) / ReadErr(e) / Reply(e)      traffic and hard errors on a handed-out endpoint
      Track(e, t)       the endpoint registers kernel flow entry t
@@ -76,17 +78,17 @@ Get(k, o, dial) ==
        /\ nep < MaxEp
        /\ LET c == IF cur # NoEp THEN CloseEp(ep, retain, cur) ELSE <<ep, retain>>
               n == nep + 1
-          IN /\ dials' = dials + 1
+          IN /\ dials' = dials + (IF dial \in {"ok", "fail"} THEN 1 ELSE 2)
              /\ nep' = n
              /\ retain' = c[2]
-             /\ IF dial = "ok"
+             /\ IF dial \in {"ok", "unreach-ok"}
                 THEN /\ ep' = [c[1] EXCEPT ![n] = [st |-> "live", key |-> k, dead |-> FALSE, expires |-> now + NatT, gen |-> epoch, used |-> FALSE,
                                                    closed |-> 0, owner |-> o, tuples |-> {}]]
                      /\ pool' = [pool EXCEPT ![k] = n]
-                     /\ UNCHANGED <<now, epoch>> /\ Log("get", k, n, o, "new")
+                     /\ UNCHANGED <<now, epoch>> /\ Log("get", k, n, o, IF dial = "ok" THEN "new" ELSE "new-after-retry")
                 ELSE /\ ep' = [c[1] EXCEPT ![n] = [Unused EXCEPT !.st = "failed", !.key = k, !.expires = now + FailT]]
                      /\ pool' = [pool EXCEPT ![k] = n]
-                     /\ UNCHANGED <<now, epoch>> /\ Log("get", k, NoEp, o, "dial-error")
+                     /\ UNCHANGED <<now, epoch>> /\ Log("get", k, NoEp, o, IF dial = "fail" THEN "dial-error" ELSE "dial-error-after-retry")
 
 \* two concurrent first packets with a slow dial: creation is serialised, the second caller finds the first one's endpoint
 Get2(k) ==
@@ -151,7 +153,7 @@ Reset ==
   /\ UNCHANGED <<now, nep, epoch, dials>> /\ Log("reset", "", NoEp, "", "ok")
 
 Next == /\ Len(hist) < MaxEvents
-        /\ \/ \E k \in Keys, o \in Owners, d \in {"ok", "fail"} : Get(k, o, d)
+        /\ \/ \E k \in Keys, o \in Owners, d \in {"ok", "fail", "unreach-ok", "unreach-fail"} : Get(k, o, d)
            \/ \E k \in Keys : Get2(k)
            \/ \E i \in 1..MaxEp : Write(i) \/ Reply(i) \/ HardErr(i, "writeerr") \/ HardErr(i, "readerr")
            \/ \E i \in 1..MaxEp, t \in Tuples : Track(i, t)
